@@ -1323,9 +1323,16 @@ class Interp:
     def exec_exitstack(self, stmt, item, body, st: St, fr: DynFrame):
         """ExitStack: exits every entered context; may swallow what they swallow"""
         entered, managers = [], []
+        # `enter = stack.enter_context` ... `enter(ctx)`: local names of the bound method
+        aliases = {t.id for node in ast.walk(stmt) if isinstance(node, ast.Assign)
+                   and isinstance(node.value, ast.Attribute)
+                   and node.value.attr == 'enter_context'
+                   for t in node.targets if isinstance(t, ast.Name)}
         for node in ast.walk(stmt):
-            if isinstance(node, ast.Call) and isinstance(node.func, ast.Attribute) \
-                    and node.func.attr == 'enter_context' and node.args:
+            if isinstance(node, ast.Call) and node.args and (
+                    (isinstance(node.func, ast.Attribute)
+                     and node.func.attr == 'enter_context')
+                    or (isinstance(node.func, ast.Name) and node.func.id in aliases)):
                 for term in self.etype(node.args[0], fr):
                     if term[0] == 'ctx':
                         callee = Callee(self.p.functions[term[1]], term[2])
